@@ -11,6 +11,7 @@ import (
 	"net"
 	"os"
 	"sync"
+	"sync/atomic"
 	"syscall"
 	"time"
 
@@ -35,6 +36,12 @@ type recorder struct {
 	rep   *vsup.Report
 	muted bool
 	efds  sync.Map // eventfd descriptors of the open pollers (from the p.open / p.close hooks)
+	// descriptors grabbed right after the framework closed them (see grab)
+	gmu     sync.Mutex
+	held    []grabbed
+	noGrab  int32
+	stopJan chan struct{}
+	janDone chan struct{}
 }
 
 func (r *recorder) isEventfd(fd int) bool {
@@ -146,11 +153,18 @@ func (r *recorder) install() {
 				r.efds.Delete(b)
 			}
 			r.emit("Sys", "site", site, "h", r.handle(obj), "fd", a, "n", b, "err", errClass(err), "g", vsup.Goid())
+			if site == "el.close" && err == nil {
+				r.grab(a)
+			}
 		} else {
 			r.emit("Hook", "site", site, "h", r.handle(obj), "a", a, "b", b, "g", vsup.Goid())
 		}
 	})
 	r.installGate()
+	if r.stopJan == nil {
+		r.stopJan, r.janDone = make(chan struct{}), make(chan struct{})
+		go func() { defer close(r.janDone); r.janitor(r.stopJan) }()
+	}
 }
 
 // gateFunc: the three engine-level gates are logged too (EngineTrace.tla); the queue / poller gates are not.
@@ -168,7 +182,95 @@ func (r *recorder) gateFunc() vhook.GateFunc {
 
 func (r *recorder) installGate() { vhook.SetGate(r.gateFunc()) }
 
-func (r *recorder) uninstall() { vhook.SetSink(nil); vhook.SetGate(nil) }
+// grab: right after the framework has closed a connection's descriptor (this runs inside the hook, on the loop's
+// goroutine) somebody else in the process takes that very number: one end of a socket pair with bytes waiting to be
+// read.  Whatever the framework still does to the number on behalf of the dead connection -- read it, write to it,
+// poll it, close it -- now hits a foreign descriptor, and its owner notices.  The pair is given up a few
+// milliseconds later.
+const grabPending = "FOREIGN-BYTES-NOBODY-MAY-READ"
+
+type grabbed struct {
+	fd, peer int
+	ino      uint64
+	at       time.Time
+}
+
+func (r *recorder) grab(fd int) {
+	if r.muted || atomic.LoadInt32(&r.noGrab) != 0 {
+		return
+	}
+	p, err := unix.Socketpair(unix.AF_UNIX, unix.SOCK_STREAM|unix.SOCK_CLOEXEC|unix.SOCK_NONBLOCK, 0)
+	if err != nil {
+		return
+	}
+	if p[1] == fd {
+		p[0], p[1] = p[1], p[0]
+	}
+	var st unix.Stat_t
+	_ = unix.Fstat(p[0], &st)
+	r.emit("ForeignOpen", "fd", p[0], "grab", p[0] == fd)
+	r.emit("ForeignOpen", "fd", p[1])
+	_, _ = unix.Write(p[1], []byte(grabPending))
+	r.gmu.Lock()
+	r.held = append(r.held, grabbed{p[0], p[1], st.Ino, time.Now()})
+	r.gmu.Unlock()
+}
+
+// releaseGrabbed gives up the pairs held for longer than age (all of them with age 0), checking that nobody touched them.
+func (r *recorder) releaseGrabbed(age time.Duration) {
+	r.gmu.Lock()
+	var keep, due []grabbed
+	for _, g := range r.held {
+		if time.Since(g.at) >= age {
+			due = append(due, g)
+		} else {
+			keep = append(keep, g)
+		}
+	}
+	r.held = keep
+	r.gmu.Unlock()
+	for _, g := range due {
+		why := ""
+		var st unix.Stat_t
+		buf := make([]byte, 64)
+		if err := unix.Fstat(g.fd, &st); err != nil || st.Ino != g.ino {
+			why = "identity"
+		} else if n, _, err := unix.Recvfrom(g.fd, buf, unix.MSG_PEEK|unix.MSG_DONTWAIT); err != nil || string(buf[:n]) != grabPending {
+			why = "pending bytes were consumed"
+		} else if m, _, err := unix.Recvfrom(g.peer, buf, unix.MSG_PEEK|unix.MSG_DONTWAIT); err == nil && m > 0 {
+			why = "somebody wrote into it"
+		}
+		if why != "" {
+			r.emit("ForeignBroken", "fd", g.fd, "why", why)
+		}
+		r.emit("ForeignClose", "fd", g.fd)
+		_ = unix.Close(g.fd)
+		r.emit("ForeignClose", "fd", g.peer)
+		_ = unix.Close(g.peer)
+	}
+}
+
+func (r *recorder) janitor(stop <-chan struct{}) {
+	for {
+		select {
+		case <-stop:
+			r.releaseGrabbed(0)
+			return
+		case <-time.After(time.Millisecond):
+			r.releaseGrabbed(4 * time.Millisecond)
+		}
+	}
+}
+
+func (r *recorder) uninstall() {
+	vhook.SetSink(nil)
+	vhook.SetGate(nil)
+	if r.stopJan != nil {
+		close(r.stopJan)
+		<-r.janDone
+		r.stopJan = nil
+	}
+}
 
 func (r *recorder) close() error {
 	r.mu.Lock()
